@@ -65,8 +65,15 @@ def expected(ap, obs, fmt):
 def run(ctx):
     nob, ndis, failing, files = common.obligations(ctx, PROPS)
     aps = []
-    for fam, nq, nt in (("core", 10, 60), ("subslot", 8, 40), ("trees", 8, 40), ("alap", 4, 30)):
+    for fam, nq, nt in (("core", 10, 60), ("subslot", 8, 40), ("trees", 8, 40), ("alap", 4, 30), ("yearend", 6, 40)):
         aps += gens.family(ctx, fam, ctx.n(nq, nt))
+    # one task per working day across a year end: dates whose ISO week-year differs from the calendar year
+    for k, st in enumerate((1734912000, 1797811200)):          # 2024-12-23, 2026-12-21
+        aps.append({"start": st, "dur": ("w", 4), "G": 3600, "tz": "Etc/UTC", "vac": [], "gleaves": [], "shifts": {},
+                    "resources": [{"id": "r0", "eff": "1.0", "leaves": []}],
+                    "tasks": [dict({"id": f"d{j}", "effort": 480, "alloc": ["r0"]}, **({"deps": [{"to": [f"d{j - 1}"], "style": "abs"}]} if j else {}))
+                              for j in range(10)],
+                    "_family": "isoyear", "_i": k})
     api = projects.schedule_all(ctx, aps, ledger=False)
     bad, stats = [], Counter()
     box = cli.Box(ctx)
@@ -127,6 +134,8 @@ def run(ctx):
         # bad input classes
         box.put("empty.tjp", b"")
         box.put("syntax.tjp", b'project p "P" 2025-01-06 +1w {\n task a "A" { effort }\n')
+        box.put("anon.tjp", b'project p "P" 2025-01-06 +1w { timezone "Etc/UTC" }\nresource r "R" {}\ntask a "A" { effort 2h allocate r }\ntaskreport { formats json columns id }\n')
+        box.put("badname.tjp", b'project p "P" 2025-01-06 +1w { timezone "Etc/UTC" }\nresource r "R" {}\ntask a "A" { effort 2h allocate r }\ntaskreport q "what?" { formats csv columns id }\n')
         box.put("unsched.tjp", b'project p "P" 2025-01-06 +1w { timezone "Etc/UTC" }\nresource r "R" { leaves annual 2025-01-01 - 2026-01-01 }\ntask a "A" { effort 2h allocate r }\n')
         import os
         os.makedirs(box.cwd + "/adir.tjp", exist_ok=True)
@@ -138,6 +147,8 @@ def run(ctx):
                                         (["report", "-"], b"   \n", ("stdin", "empty", "json", True), "blank stdin"),
                                         (["report", "syntax.tjp"], None, ("file", "content", "json", False), "syntax error"),
                                         (["report", "--csv", "syntax.tjp"], None, ("file", "content", "csv", False), "syntax error csv"),
+                                        (["report", "anon.tjp"], None, ("file", "content", "json", False), "report without a name (library sys.exit)"),
+                                        (["report", "--csv", "badname.tjp"], None, ("file", "content", "csv", False), "invalid character in a report name (library sys.exit)"),
                                         (["report", "unsched.tjp"], None, ("file", "content", "json", True), "unschedulable task")):
             want_rc, m_out, m_diag = model_plan(*cls)
             r = box.run(args, stdin=stdin)
@@ -162,7 +173,7 @@ def run(ctx):
         violations.append({"no_input": True, "replay": common.write_replay(ctx, {"property": "C19", "kind": "proof obligation no longer checks; no failing input found", "failing_obligations": failing})})
     cov = {"obligations": nob, "discharged": ndis, "checker_cmd": "tools/coqbuild.sh (coqc 8.16.1 full .vo build)", "trusted_base": common.TRUSTED, "files": files,
            "traces_validated_against_impl": sum(v for k, v in stats.items()), "input_distribution": dict(stats), "findings": len(bad),
-           "rule": "the real entry point (scriptplan.cli.plan:main) as a subprocess with private cwd and TMPDIR: generated projects x {no, 1-3 own reports in json/csv/both with names sorting before and after the auto report} x {file, stdin, stdin '-'} x {json, csv} x LF/CRLF x file names with/without .tjp; stdout compared with the schedule obtained through the API; classes of bad input (missing, directory, empty file, empty/blank stdin, syntax error, unschedulable task)",
+           "rule": "the real entry point (scriptplan.cli.plan:main) as a subprocess with private cwd and TMPDIR: generated projects (incl. projects across a year end, where ISO week-year and calendar year differ) x {no, 1-3 own reports in json/csv/both with names sorting before and after the auto report} x {file, stdin, stdin '-'} x {json, csv} x LF/CRLF x file names with/without .tjp; stdout compared with the schedule obtained through the API; classes of bad input (missing, directory, empty file, empty/blank stdin, syntax error, report definitions the library ends with sys.exit, unschedulable task)",
            "samples": [{"args": ["report", "p.tjp"], "expect": "exit 0, JSON {data, columns=[id,start,end], report_id=sha256(input)}"}]}
     common.finish(ctx, "proof", cov, violations,
                   ["partial: click, the OS and exit-status delivery are runtime; the Coq model covers the decision table of report() only - the expected exit status, stdout selection and diagnostics of every run are taken from the extracted Model/Cli.v (plan_report)"])
